@@ -77,3 +77,12 @@ Theorem C01_reachable_match_names_a_live_template :
          /\ tinfo (i_template i) (i_data i) es (exp_route e) = Some i.
 Proof. exact reach_match_is_live. Qed.
 Print Assumptions C01_reachable_match_names_a_live_template.
+
+(* ---- the eight parameter searches of src/node/search.rs as sequences of recognised statements, REGENERATED on this run
+        (Gen/Loops.v): each has exactly the statements, in the order, of one of the loop shapes of Model/SearchC.v (grow in its
+        three modes, dyn_segment), over the child list of its kind, with the constraint check exactly in the constrained ones,
+        and no further continue / break / return ---- *)
+From WF Require Import Gen.Loops Proofs.LoopsP.
+Theorem C01_search_loops_have_the_model_shapes : loops_eqb gen_search_loops expected_loops = true.
+Proof. exact search_loops_have_the_model_shapes. Qed.
+Print Assumptions C01_search_loops_have_the_model_shapes.
